@@ -542,6 +542,14 @@ func (p *Program) lookupSpec(pkg, name string) *SpecFunc {
 	if sf := p.Specs[pkg+"."+name]; sf != nil {
 		return sf
 	}
+	// other package's spec function: <pkg>_<name>
+	if i := strings.IndexByte(name, '_'); i > 0 {
+		if _, ok := p.Pkgs[name[:i]]; ok {
+			if sf := p.Specs[name[:i]+"."+name[i+1:]]; sf != nil {
+				return sf
+			}
+		}
+	}
 	// spec functions of the root package are visible everywhere
 	if sf := p.Specs["roaring."+name]; sf != nil {
 		return sf
